@@ -53,6 +53,38 @@ def is_sym(v):
     return isinstance(v, tuple)
 
 
+_IDX = None
+
+
+def join_val(a, b):
+    """least upper bound of two abstract values; NOJOIN when there is none short of unknown"""
+    if a == b:
+        return a
+    if isinstance(a, tuple) and isinstance(b, tuple) and a and b:
+        if a[0] == 'path' and b[0] == 'path':
+            import re
+            ga, gb = re.sub(r'\[\d+\]', '[*]', a[1]), re.sub(r'\[\d+\]', '[*]', b[1])
+            if ga == gb:
+                return ('path', ga)
+        ta, tb = taint_of(a), taint_of(b)
+        if ta is not None and tb is not None:
+            return ('tnt', frozenset(ta) | frozenset(tb))
+    return NOJOIN
+
+
+NOJOIN = ('nojoin',)
+
+
+def taint_of(v):
+    """arrays an unknown scalar value was computed from: ('tnt', {...}) or an element loaded from an array"""
+    if isinstance(v, tuple) and v:
+        if v[0] == 'tnt':
+            return v[1]
+        if v[0] == 'path' and '[' in v[1]:
+            return frozenset([v[1].split('[')[0]])
+    return None
+
+
 def ptr_desc(v):
     """string form of a pointer-like abstract value, usable as a path prefix"""
     if isinstance(v, tuple):
@@ -143,11 +175,19 @@ class Engine(object):
         self.path2flag = {d['path']: n for n, d in flags.items() if d.get('path')}
         self.havoc = havoc or []
         self.want = callees or (lambda name: True)
-        self.eff = eff or effmod.Effects(prog)
+        self.peff = eff if isinstance(eff, effmod.PathEffects) else effmod.PathEffects(prog)
         self.cfg = prog.cfg(f)
         self.pidx = {pid: i + 1 for i, (_, pid, _) in enumerate(f.params)}
         self.ptypes = {pid: t for (_, pid, t) in f.params}
         self.max_leaves = max_leaves
+        self.order = {n: i for i, n in enumerate(self.cfg.rpo())}
+        self.flagpaths_by_root = {}
+        for path in self.path2flag:
+            r = path.lstrip('*')
+            for sep in ('->', '[', '.'):
+                if sep in r:
+                    r = r.split(sep)[0]
+            self.flagpaths_by_root.setdefault(r, []).append(path)
         self.leaves = []
         self.nruns = 0
 
@@ -157,16 +197,23 @@ class Engine(object):
         return self.leaves
 
     def _explore(self, valuation):
+        cfg = self.cfg
+        IN = {cfg.entry.id: {}}
+        self._continue(dict(valuation), IN, [cfg.entry.id])
+
+    def _continue(self, valuation, IN, work):
+        """run the dataflow to its fixpoint; when a flag is needed, fork the current state once per value of the flag
+        (everything computed so far did not depend on it and stays valid)"""
         if len(self.leaves) > self.max_leaves:
             raise RuntimeError('R3: too many leaf valuations in %s' % self.f.name)
+        self.nruns += 1
         try:
-            self.nruns += 1
-            leaf = self._dataflow(valuation)
+            leaf = self._dataflow(valuation, IN, work)
         except Split as s:
             for v in self.flags[s.flag]['values']:
                 v2 = dict(valuation)
                 v2[s.flag] = v
-                self._explore(v2)
+                self._continue(v2, dict(IN), list(work))
             return
         self.leaves.append(leaf)
 
@@ -329,6 +376,10 @@ class Engine(object):
             a = self.eval(e.c[0], env)
             b = self.eval(e.c[1], env)
             if is_sym(a) or is_sym(b):
+                ta = taint_of(a)
+                tb = taint_of(b)
+                if (ta is not None or tb is not None) and op in ('+', '-', '*', '/'):
+                    return ('tnt', (ta or frozenset()) | (tb or frozenset()))
                 if op in ('==', '!=') and is_sym(a) and is_sym(b) and a[0] == b[0] and a[0] in ('p', 'addr', 'fresh', 'str'):
                     return int((a == b) == (op == '=='))
                 if op in ('==', '!=') and (a == 0 or b == 0):
@@ -364,6 +415,10 @@ class Engine(object):
         if k == 'Assign':
             if e.a['op'] == '=':
                 v = self.eval(e.c[1], env)
+                if v is UNK and strip(e.c[0]).k == 'Ref':
+                    t = self.reads_of(e.c[1], env)
+                    if t:
+                        v = ('tnt', frozenset(t))      # unknown scalar that was computed from these arrays
                 self.assign(e.c[0], v, env, node=e)
                 return v
             old = self.eval(e.c[0], env)
@@ -431,6 +486,44 @@ class Engine(object):
                 if key.startswith(base + '['):
                     del env[key]
 
+    def kill_paths(self, v, suffixes, env):
+        """forget what is known about the locations  <pointer v><suffix>  for each written suffix"""
+        d = ptr_desc(v)
+        if d is None:
+            return
+        cands = []
+        for t in suffixes:
+            if d.startswith('&'):
+                base = d[1:]
+                if t.startswith('[]'):
+                    c = base + t[2:]
+                elif t.startswith('->'):
+                    c = base + '.' + t[2:]
+                else:
+                    c = base + t
+                cands.append(c[:-2] if c.endswith('[]') else c)
+            else:
+                if t.startswith('[]'):
+                    c = '*' + d + t[2:]
+                    cands.append(c[:-2] if c.endswith('[]') else c)
+                    cands.append(d + '[')
+                else:
+                    c = d + t
+                    cands.append(c[:-2] if c.endswith('[]') else c)
+        root = d[1:] if d.startswith('&') else d
+
+        def hit(key):
+            for c in cands:
+                if key == c or (key.startswith(c) and (c.endswith('[') or key[len(c):len(c) + 1] in ('-', '[', '.'))):
+                    return True
+            return False
+        for key in [k for k in env if root in k]:
+            if hit(key):
+                del env[key]
+        for path in self.flagpaths_by_root.get(root, ()):
+            if hit(path):
+                env[path] = ('clobbered',)
+
     def kill_reachable(self, v, env):
         d = ptr_desc(v)
         if d is None:
@@ -463,6 +556,12 @@ class Engine(object):
             if sa is not None and sb is not None:
                 return 0 if sa[:1] == sb[:1] else 1
             return UNK
+        if name in getattr(self, 'pure', {}):
+            r = self.pure[name](self, vals, env)
+            if r is not NotImplemented:
+                return r
+        if name in ('fabs', 'fabsf') and vals and isinstance(vals[0], (int, float)):
+            return abs(vals[0])
         if name in ('lsame_',) and len(vals) >= 2:
             sa = self.string_of(vals[0], env)
             sb = self.string_of(vals[1], env)
@@ -478,17 +577,22 @@ class Engine(object):
         # generic effects: whatever the callee may write through its arguments is forgotten
         tgt = self.prog.resolve(name, self.f.unit)
         if tgt is not None:
-            wr = self.eff.summary.get((tgt.unit, tgt.name), set())
+            pw = self.peff.writes.get((tgt.unit, tgt.name), {})
+            for i, sufs in pw.items():
+                if i < len(vals):
+                    self.kill_paths(vals[i], sufs, env)
         else:
             wr = effmod.external_writes(name, len(args))
             if wr is None:
                 wr = range(len(args))
-        for i in wr:
-            if i < len(vals):
-                self.kill_reachable(vals[i], env)
+            for i in wr:
+                if i < len(vals):
+                    self.kill_paths(vals[i], ('[]',), env)
         for (pred, fn) in self.havoc:
             if pred(name):
                 fn(self, e, vals, env)
+        if name in getattr(self, 'retflags', {}):
+            return FlagRef(self.retflags[name])
         return ret
 
     def string_of(self, v, env):
@@ -507,30 +611,32 @@ class Engine(object):
         return None
 
     # ------------------------------------------------------------ dataflow
-    def _dataflow(self, valuation):
+    def _dataflow(self, valuation, IN, work):
         self.val = valuation
         cfg = self.cfg
-        IN = {cfg.entry.id: {}}
-        work = [cfg.entry.id]
-        inwork = {cfg.entry.id}
-        self.edge_ok = {}
-        order = {n: i for i, n in enumerate(cfg.rpo())}
+        inwork = set(work)
+        order = self.order
         iters = 0
         while work:
-            work.sort(key=lambda n: -order.get(n, 0))
-            nid = work.pop()
-            inwork.discard(nid)
+            nid = min(work, key=lambda n: order.get(n, 0))
             iters += 1
             if iters > 200000:
                 raise RuntimeError('R3: dataflow does not converge in %s' % self.f.name)
             node = cfg.nodes[nid]
             env = dict(IN[nid])
-            outs = self.transfer(node, env, record=False)
+            outs = self.transfer(node, env, record=False)     # may raise Split: nid is still on the work list
+            work.remove(nid)
+            inwork.discard(nid)
             for (succ, env2) in outs:
                 if succ in IN:
                     old = IN[succ]
-                    new = {k: v for k, v in old.items() if k in env2 and env2[k] == v}
-                    if len(new) != len(old):
+                    new = {}
+                    for k, v in old.items():
+                        if k in env2:
+                            j = v if env2[k] == v else join_val(v, env2[k])
+                            if j is not NOJOIN:
+                                new[k] = j
+                    if new != old:
                         IN[succ] = new
                         if succ not in inwork:
                             inwork.add(succ)
@@ -572,10 +678,12 @@ class Engine(object):
                 self.eval_stmt(node.ast, env)
             return []
         if k == 'return':
+            rv = UNK
             if node.ast is not None and node.ast.c:
-                self.eval(node.ast.c[0], env)
+                rv = self.eval(node.ast.c[0], env)
             self.flush_stores(env)
-            self.cur_events.append({'kind': 'return', 'node': node.id, 'line': node.ast.line if node.ast is not None else 0, 'env': dict(env)})
+            self.cur_events.append({'kind': 'return', 'node': node.id, 'line': node.ast.line if node.ast is not None else 0, 'env': dict(env),
+                                    'value': rv})
             return [(s, env) for (s, _) in node.succ]
         if k == 'stmt':
             self.eval_stmt(node.ast, env)
@@ -621,7 +729,11 @@ class Engine(object):
                 else:
                     v = self.eval(s.c[0], env)
                     if v is UNK:
-                        env.pop(p, None)
+                        t = self.reads_of(s.c[0], env)
+                        if t:
+                            env[p] = ('tnt', frozenset(t))
+                        else:
+                            env.pop(p, None)
                     else:
                         env[p] = v
             else:
@@ -645,7 +757,14 @@ class Engine(object):
                 base = self.eval_quiet(lv.c[0], env)
                 form = '*%s'
             elif lv.k == 'Member':
-                if lv.a['arrow']:
+                inner0 = strip(lv.c[0])
+                if lv.a['arrow'] and inner0.k == 'Unary' and inner0.a['op'] == '&' and strip(inner0.c[0]).k == 'Index':
+                    # (&a[i])->r = ...   (complex macros): a store into element i of a
+                    el = strip(inner0.c[0])
+                    base = self.eval_quiet(el.c[0], env)
+                    idx = el.c[1]
+                    form = '%s[].' + lv.a['name']
+                elif lv.a['arrow']:
                     base = self.eval_quiet(lv.c[0], env)
                     form = '%s->' + lv.a['name']
                 else:
@@ -668,7 +787,8 @@ class Engine(object):
                   'idx_reads': self.reads_of(idx, env) if idx is not None else set(),
                   'rhs_reads': self.reads_of(rhs, env) if rhs is not None else set(),
                   'rhs_idx_reads': self.index_reads_of(rhs, env) if rhs is not None else set(),
-                  'idx_vals': self.scalar_idents(idx, env) if idx is not None else set()}
+                  'idx_vals': self.scalar_idents(idx, env) if idx is not None else set(),
+                  'rhs_pairs': self.load_pairs(rhs, env) if rhs is not None else []}
             self.cur_events.append(ev)
         self.cur_stores = []
 
@@ -686,6 +806,16 @@ class Engine(object):
                 out |= self.reads_of(n.c[1], env)
         return out
 
+    def load_pairs(self, e, env):
+        """(array identity, identities of the scalars in its subscript) for every subscripted load in e"""
+        out = []
+        for n in strip(e).walk():
+            if n.k == 'Index':
+                d = ptr_desc(self.eval_quiet(n.c[0], env))
+                if d:
+                    out.append((d, frozenset(self.scalar_idents(n.c[1], env))))
+        return out
+
     def scalar_idents(self, e, env):
         """symbolic identities of the scalar operands of a subscript (leading dimensions): i + j*ldx -> {value of ldx}"""
         out = set()
@@ -694,6 +824,8 @@ class Engine(object):
                 v = self.eval_quiet(n, env)
                 if is_sym(v) and v[0] == 'path':
                     out.add(v[1])
+                elif isinstance(v, int) and v >= 1000:
+                    out.add('const:%d' % v)       # distinctive representative values (leading dimensions) keep their identity
         return out
 
     # helper for oracles: identities read by an expression (bases of loads), under env
@@ -705,4 +837,8 @@ class Engine(object):
                 d = ptr_desc(b)
                 if d:
                     out.add(d)
+            elif n.k == 'Ref' and n.a.get('dk') == 'VarDecl':
+                t = taint_of(env.get('L:%s' % n.a.get('id')))
+                if t:
+                    out |= t
         return out
